@@ -87,6 +87,12 @@ def mir_txs_proof(cfg):
             q.failures.append('more than one outcome of the Merkle-root comparison leads on to add_fetched_tx (%s)' % tg)
             q.paths.append({'what': 'arms of the Merkle-root comparison: %s' % tg, 'blocks': [(sw, cfg.term[sw])], 'bfs_confirmed': True})
         q.n_queries += 1; q.n_unsat += 1 if len(good) == 1 else 0
+        # EVERY filtered block is checked: from the accepting arm the only way on to the stores is through the next iteration of
+        # the verification loop (its `next()`), i.e. the loop is not left early on success
+        nxt = [c for c in cfg.find_calls(r'slice::Iter<.*FilteredBlock> as Iterator>::next$', required=False)]
+        if nxt and len(good) == 1:
+            q.must_pass(eff, [(c.block, c.ret) for c in nxt], 'after one filtered block passed the Merkle check the stores are reachable without '
+                        'examining the remaining filtered blocks (verification loop left early)', src=good[0])
     return q
 
 
@@ -122,6 +128,11 @@ def ex_proofs(repo):
 
 def obligations():
     return [
+        KModelOb('O2.6-body-semantic', 'syncarm', 'send_block_ok', 'SendBlock arm (real text) over a model of ckb-types Block / BlockView (into_view RESETS the header roots, '
+                 'into_view_without_reset_header does not): a block whose body is not committed by its header is rejected and nothing is stored; only proved '
+                 'matched blocks with their committed body are indexed, once, after their pending record is consumed, then the script numbers are raised',
+                 common.send_block_arm, '<=2 matched hashes in the earliest record (+ an optional later record), arbitrary incoming block over 3 header ids; '
+                 'transactions root / extra hash uninterpreted', timeout=1500, mem_gb=12, min_covers=2, weight=5),
         MirOb('O2.3-blocks-proof-gates', 'SendBlocksProofProcess::execute_internally: add_fetched_header / mark_matched_blocks_proved / '
               'update_blocks_request / remove_fetching_header only with an outstanding request, the requested last hash, check_block_hashes, '
               'PoW Ok and verify_mmr_proof Ok; nothing after a failed check', r'send_blocks_proof\.rs:\d+:\d+: \d+:\d+>::execute_internally\(',
